@@ -109,20 +109,26 @@ func c02Monitor(vf, vt *StoreView, auxBefore string, tr Trans, res *StepResult) 
 		if cfgValuesText(cf) != cfgValuesText(ct) {
 			// the merge of proposal n: n is beyond the committed index and becomes it (a crash inside the step may
 			// leave the values written and the index not yet moved: still the next change in order)
-			ok := (tr.Kind == "step" || tr.Kind == "crash") && tr.Ctrl == cProp
+			// (a split step: its first half is like a crashed step, its second half like a step)
+			// (the second half may also stop short: its conditional record write meets a version conflict after the
+			// values write went through – the store's two-step write, a recorded C15 finding – and the step is retried)
+			partial := tr.Kind == "crash" || tr.Kind == "hold" || tr.Kind == "release"
+			ok := (tr.Kind == "step" || tr.Kind == "release" || partial) && tr.Ctrl == cProp
 			var n uint64
 			var tgt string
 			if ok {
 				tgt, n = proposalIndex(tr.ID)
 				ok = tgt == string(ct.TargetID) && configapi.Index(n) > fromCommitted &&
-					(configapi.Index(n) == ct.Status.Committed.Index || (tr.Kind == "crash" && ct.Status.Committed.Index == fromCommitted))
+					(configapi.Index(n) == ct.Status.Committed.Index || (partial && ct.Status.Committed.Index == fromCommitted))
 			}
 			if !ok {
 				return "merge-out-of-order", fmt.Sprintf("%s changes the stored values of %s (%q -> %q) with committed index %d -> %d", tr.String(), ct.TargetID, cfgValuesText(cf), cfgValuesText(ct), fromCommitted, ct.Status.Committed.Index)
 			}
 		}
 	}
-	if res != nil && tr.Kind == "step" && tr.Ctrl == cProp {
+	// (the conditions below only ever become true – phases and cursors move forward – so judging the second half of a
+	// split step against the state it continues in is sound)
+	if res != nil && (tr.Kind == "step" || tr.Kind == "hold" || tr.Kind == "release") && tr.Ctrl == cProp {
 		target, n := proposalIndex(tr.ID)
 		for range res.DevLog[target] {
 			p := vf.Props[configapi.ProposalID(tr.ID)]
@@ -158,8 +164,8 @@ func c02Scenarios(thorough bool) []*Scenario {
 	scs := []*Scenario{
 		{Name: "S2 two Sets on one leaf of T1, connected, one crash", Cfg: WorldConfig{Targets: []string{"T1"}}, Init: connectAll("T1"),
 			Requests: []SetReqOrCall{a("leafA", "1"), a("leafA", "2")}, CrashBudget: 1},
-		{Name: "S2i two Sets on one leaf of T1, connected; one step held at a store write while another controller or the client runs", Cfg: WorldConfig{Targets: []string{"T1"}}, Init: connectAll("T1"),
-			Requests: []SetReqOrCall{a("leafA", "1"), a("leafA", "2")}, InterleaveBudget: 1},
+		{Name: "S2h two Sets on one leaf of T1, connected; one step split (parked before any of its calls while up to 4 other transitions happen)", Cfg: WorldConfig{Targets: []string{"T1"}}, Init: connectAll("T1"),
+			Requests: []SetReqOrCall{a("leafA", "1"), a("leafA", "2")}, HoldBudget: 1, HoldDepth: 4},
 		{Name: "S2f two Sets on T1, connection lost and re-established", Cfg: WorldConfig{Targets: []string{"T1"}}, Init: connectAll("T1"),
 			Requests: []SetReqOrCall{a("leafA", "1"), a("leafA2", "2")}, Faults: []FaultSpec{faultConnDown("T1"), faultConnUp("T1")}, FaultBudget: 2},
 		{Name: "S3 Set on T1+T2 and a neighbour Set on T1, connected", Cfg: WorldConfig{Targets: []string{"T1", "T2"}}, Init: connectAll("T1", "T2"),
